@@ -23,6 +23,8 @@ class LineStage:
             return True, self.impl_exe, ""
         if self.impl == "rs":
             return core.build_rs(self.features)
+        if self.impl == "rs_min":
+            return core.build_rs_min(self.features)
         if self.impl == "c":
             return core.build_c()
         if self.impl == "c_ci":
